@@ -4,11 +4,11 @@ CONSTANTS
   Names = {"be/banks", "cz/banks", "isbn"}
   Codes = {"nl", "el", "xi", "gb", "zz"}
   MaxCalls = 2
-  StoreFirst = TRUE
+  StoreFirst = FALSE
   BaseKey = FALSE
   AliasProps = FALSE
   CacheBeforeMember = FALSE
-  NoImportFallback = FALSE
+  NoImportFallback = TRUE
   Faults = FALSE
 INVARIANT PureResults
 INVARIANT KeyInjective
